@@ -130,7 +130,7 @@ ArrayLengths(d, decl, i) ==
       sw == IF HasSizeField(decl, f.id) THEN SizeFieldOf(decl, f.id).width ELSE 99
       pad == PaddingAfter(decl, i)
   IN {0, 1, 2, 3}
-     \cup (IF cw <= 6 THEN {2 ^ cw - 1, 2 ^ cw} ELSE {})
+     \cup (IF cw <= 8 THEN {2 ^ cw - 1, 2 ^ cw} ELSE {})
      \cup (IF sw <= 8 /\ es > 0 THEN {(2 ^ sw - 1) \div es, ((2 ^ sw - 1) \div es) + 1} ELSE {})
      \cup (IF pad >= 0 /\ es > 0 /\ pad <= 64 THEN {pad \div es, (pad \div es) + 1} ELSE {})
 
